@@ -177,12 +177,16 @@ def header_defines(tree, scratch=None):
             names.append(m.group(1))
     if len(names) < 10:
         raise ExtractError("JANET_SANDBOX_* defines not found")
-    scratch = scratch or os.path.join("/var/tmp", "c18-defs-%d" % os.getpid())
-    os.makedirs(scratch, exist_ok=True)
-    cfile = os.path.join(scratch, "c18-defs.c")
-    with open(cfile, "w") as f:
-        f.write("#include <janet.h>\n" + "".join("unsigned long long c18v_%s = (unsigned long long)(%s);\n" % (n, n) for n in names))
-    ir = llvmir.compile_ir(cfile, [os.path.join(tree, "src/include"), os.path.join(tree, "src/conf")], out=os.path.join(scratch, "c18-defs.ll"))
+    import shutil
+    import tempfile
+    scratch = tempfile.mkdtemp(prefix="c18-defs-", dir="/var/tmp")      # private: concurrent runs on the same tree do not share it
+    try:
+        cfile = os.path.join(scratch, "c18-defs.c")
+        with open(cfile, "w") as f:
+            f.write("#include <janet.h>\n" + "".join("unsigned long long c18v_%s = (unsigned long long)(%s);\n" % (n, n) for n in names))
+        ir = llvmir.compile_ir(cfile, [os.path.join(tree, "src/include"), os.path.join(tree, "src/conf")], out=os.path.join(scratch, "c18-defs.ll"))
+    finally:
+        shutil.rmtree(scratch, ignore_errors=True)
     d = {}
     for m in re.finditer(r'^@c18v_(\w+) = [^\n]*?global i64 (-?\d+)', ir, re.M):
         d[m.group(1)] = int(m.group(2)) & 0xFFFFFFFFFFFFFFFF
@@ -708,8 +712,14 @@ def extract(build, ir_text=None):
         cfile = os.path.join(build.dir, "boot", "janet.c")
         if not os.path.exists(cfile):
             raise ExtractError("no amalgamation at " + cfile)
-        ir_text = llvmir.compile_ir(cfile, [os.path.join(tree, "src/include"), os.path.join(tree, "src/conf")],
-                                    out=os.path.join(build.dir, "boot", "janet-c18.ll"))
+        out = os.path.join(build.dir, "boot", "janet-c18.ll")
+        tmp = "%s.%d.tmp" % (out, os.getpid())       # private while it is written: another C18 run on the same tree may be reading
+        try:
+            ir_text = llvmir.compile_ir(cfile, [os.path.join(tree, "src/include"), os.path.join(tree, "src/conf")], out=tmp)
+            os.replace(tmp, out)                     # (kept for inspection)
+        finally:
+            if os.path.exists(tmp):
+                os.remove(tmp)
     mod = llvmir.parse(ir_text)
     M = Model()
     M.mod = mod
